@@ -10,6 +10,7 @@
 extern crate std;
 use super::*;
 use std::string::String;
+use std::vec;
 use std::vec::Vec;
 
 pub type Chk = Result<(), &'static str>;
@@ -227,11 +228,16 @@ macro_rules! for_upto {
 include!(concat!(env!("HASHBROWN_VERIF_DIR"), "/pure.rs"));
 include!(concat!(env!("HASHBROWN_VERIF_DIR"), "/state.rs"));
 include!(concat!(env!("HASHBROWN_VERIF_DIR"), "/rawh.rs"));
+#[cfg(not(kani))]
+include!(concat!(env!("HASHBROWN_VERIF_DIR"), "/dynst.rs"));
+#[cfg(not(kani))]
+include!(concat!(env!("HASHBROWN_VERIF_DIR"), "/apih.rs"));
 
-/// Declares obligations: each `h_*<S: Src>(&mut S) -> Chk` becomes a Kani proof harness
-/// `raw::verif::k::h_*` and an entry of the native replay dispatcher.
+/// Declares obligations: each `h_*<S: Src>(&mut S) -> Chk` in `kani { }` becomes a Kani proof
+/// harness `raw::verif::k::h_*`; those and the ones in `native { }` (compiled only outside Kani)
+/// are entries of the native replay / sampling dispatchers.
 macro_rules! harnesses {
-    ($( $(#[$m:meta])* $name:ident ),* $(,)?) => {
+    (kani { $( $(#[$m:meta])* $name:ident ),* $(,)? } native { $( $nname:ident ),* $(,)? }) => {
         #[cfg(kani)]
         mod k {
             $(
@@ -244,17 +250,24 @@ macro_rules! harnesses {
                 }
             )*
         }
+        #[cfg(not(kani))]
+        fn dispatch<S: Src>(name: &str, s: &mut S) -> Option<Chk> {
+            Some(match name {
+                $( stringify!($name) => $name(s), )*
+                $( stringify!($nname) => $nname(s), )*
+                _ => return None,
+            })
+        }
         /// Native replay of a counterexample: `None` = unknown obligation.
+        #[cfg(not(kani))]
         pub fn replay(name: &str, vals: Vec<Vec<u8>>) -> Option<(Chk, bool, bool)> {
             let mut s = Replay::new(vals);
-            let r = match name {
-                $( stringify!($name) => $name(&mut s), )*
-                _ => return None,
-            };
+            let r = dispatch(name, &mut s)?;
             Some((r, s.assume_failed, s.underrun))
         }
         /// Engine R: evaluate obligation `name` on `iters` sampled inputs; returns
-        /// (evaluated, discarded-by-precondition, first failure (iteration, seed, message)).
+        /// (evaluated, discarded-by-precondition, first failure (iteration, sample seed, message)).
+        #[cfg(not(kani))]
         pub fn sample(name: &str, seed: u64, iters: u64) -> Option<(u64, u64, Option<(u64, u64, &'static str)>)> {
             let mut done = 0u64;
             let mut skipped = 0u64;
@@ -262,10 +275,7 @@ macro_rules! harnesses {
             while it < iters {
                 let sd = seed.wrapping_mul(0x9E37_79B9_7F4A_7C15).wrapping_add(it.wrapping_mul(0xD1B5_4A32_D192_ED03)) | 1;
                 let mut s = Rand::new(sd);
-                let r = match name {
-                    $( stringify!($name) => $name(&mut s), )*
-                    _ => return None,
-                };
+                let r = dispatch(name, &mut s)?;
                 if s.assume_failed { skipped += 1; } else { done += 1; }
                 if let Err(m) = r {
                     return Some((done, skipped, Some((it, sd, m))));
@@ -274,7 +284,8 @@ macro_rules! harnesses {
             }
             Some((done, skipped, None))
         }
-        pub const HARNESSES: &[&str] = &[ $( stringify!($name), )* ];
+        #[cfg(not(kani))]
+        pub const HARNESSES: &[&str] = &[ $( stringify!($name), )* $( stringify!($nname), )* ];
     };
 }
 
